@@ -77,6 +77,7 @@ class _SocketShim(object):
         fn = k.registry.get('socket_factory')
         if fn is None:
             raise HarnessError('socket() with no factory registered')
+        k.yield_point('socket')         # a system call: the GIL is released around it
         return fn(family, type)
 
 
@@ -125,6 +126,7 @@ def _sim_serial_factory(port=None, timeout=None, **kw):
     if fn is None:
         import serial
         raise serial.SerialException('no such port %r' % (port,))
+    k.yield_point('open')               # opening a port is a system call: the GIL is released around it
     obj = fn(port, timeout)
     if isinstance(obj, BaseException):
         raise obj
